@@ -42,19 +42,19 @@ fn small_to_case(c: &SmallCase) -> WsCase {
     let mut ops = vec![
         WsOp::Open { worker: 0, v6: false },
         WsOp::Open { worker: 1, v6: false },
-        WsOp::Announce { conn: 0, t: 0, pid: 0, event: 1, left: Some(1), offers: None, answer: None, sticky: true },
-        WsOp::Announce { conn: 1, t: 0, pid: 1, event: 1, left: Some(0), offers: None, answer: None, sticky: true },
+        WsOp::Announce { conn: 0, t: 0, pid: 0, event: 1, left: Some(1), offers: None, answer: None, sticky: true, numwant: 0 },
+        WsOp::Announce { conn: 1, t: 0, pid: 1, event: 1, left: Some(0), offers: None, answer: None, sticky: true, numwant: 0 },
     ];
     for x in &c.seq {
         ops.push(match x % 7 {
-            0 => WsOp::Announce { conn: 0, t: 0, pid: 0, event: 0, left: Some(1), offers: Some(vec![0]), answer: None, sticky: true },
-            1 => WsOp::Announce { conn: 0, t: 0, pid: 0, event: 0, left: Some(1), offers: Some(vec![1]), answer: None, sticky: true },
-            2 => WsOp::Announce { conn: 1, t: 0, pid: 1, event: 0, left: Some(0), offers: Some(vec![0]), answer: None, sticky: true },
+            0 => WsOp::Announce { conn: 0, t: 0, pid: 0, event: 0, left: Some(1), offers: Some(vec![0]), answer: None, sticky: true, numwant: 0 },
+            1 => WsOp::Announce { conn: 0, t: 0, pid: 0, event: 0, left: Some(1), offers: Some(vec![1]), answer: None, sticky: true, numwant: 0 },
+            2 => WsOp::Announce { conn: 1, t: 0, pid: 1, event: 0, left: Some(0), offers: Some(vec![0]), answer: None, sticky: true, numwant: 0 },
             3 => WsOp::Tick { dt: 1 },
             4 => WsOp::Clean { dt: 0 },
             // B answers A's offer with id 0 / id 1 (whether or not such an offer is pending)
-            5 => WsOp::Announce { conn: 1, t: 0, pid: 1, event: 0, left: Some(0), offers: None, answer: Some((0, 0)), sticky: true },
-            _ => WsOp::Announce { conn: 1, t: 0, pid: 1, event: 0, left: Some(0), offers: None, answer: Some((0, 1)), sticky: true },
+            5 => WsOp::Announce { conn: 1, t: 0, pid: 1, event: 0, left: Some(0), offers: None, answer: Some((0, 0)), sticky: true, numwant: 0 },
+            _ => WsOp::Announce { conn: 1, t: 0, pid: 1, event: 0, left: Some(0), offers: None, answer: Some((0, 1)), sticky: true, numwant: 0 },
         });
     }
     WsCase { max_offers: 10, max_scrape_torrents: 10, max_peer_age: 1000, max_offer_age: c.max_offer_age, rng_seed: 1, access_mode: 0, ops }
